@@ -245,7 +245,7 @@ Proof.
 Qed.
 
 Section WithNodes.
-Variable nodes : list (nat * nat).
+Variable nodes : cfg0.
 
 Definition SAFE {R} (t : nat) (p : prog R) (lv : lview2) : Prop :=
   @Conc.safe G V ev aux2 lview2 view2 (Inv2 nodes) R t p lv (fun _ _ => True).
@@ -297,8 +297,10 @@ Proof.
   eapply inv_step2; [| | |exact Hil].
   - cbn [b_base mk_a2]. eapply IS_view; eauto. eapply HB_ext; eauto. apply (s_HB _ _ Hs).
   - apply (EX_view g); auto using incl_refl. intros Hw. apply (e_wl _ _ He). rewrite V2, <- Hv in Hw. exact Hw.
-  - intros Hi. apply IL2_keep with (g := g); auto.
-    + rewrite <- Hv in V1, V2. now apply stof_same.
+  - intros Hi. rewrite <- Hv in V1, V2. apply IL2_keep with (g := g); auto.
+    + now apply stof_same.
+    + now rewrite V1.
+    + now rewrite V1.
     + intros n _. now rewrite E1.
     + intros S. now apply abs_ext.
 Qed.
@@ -356,7 +358,7 @@ Proof.
   { exists (aatr (b_base a)). eapply inv_step2; [| | |exact Hil].
     - cbn [b_base mk_a2]. eapply IS_view; eauto. apply (s_HB _ _ Hs).
     - apply (EX_view g); auto; [intros _; now left|apply incl_tl, incl_refl].
-    - intros Hi. apply IL2_keep with (g := g); auto. rewrite <- Hv in V1, V2. now apply stof_same. }
+    - intros Hi. rewrite <- Hv in V1, V2. apply IL2_keep with (g := g); auto; [now apply stof_same|now rewrite V1|now rewrite V1]. }
   destruct (open_of (vst (fst rec))) as [o|] eqn:Eo; [|exact Hkeep].
   destruct (Z.eqb_spec (MF.op_key o) key) as [Ek|Nk]; [|exact Hkeep]. clear Hkeep.
   apply open_of_read in Eo.
@@ -371,10 +373,11 @@ Proof.
   - intros Hi. apply (IL2_obs nodes g a t _ _ tr kd ob ok o b Hi He).
     + rewrite Hv, <- V1. exact Eo.
     + intros S HS. rewrite Ek. now apply Hz.
+    + reflexivity.
     + unfold stof. cbn [set_st2 fst snd set_watch xwatch set_st vst].
-      destruct (wat o b d) as [d'|] eqn:Ew; [|reflexivity].
+      destruct (wat o b d) as [d'|] eqn:Ew; [|apply (emap_open _ _ (ostat_open o b))].
       unfold wat in Ew. destruct o; try discriminate. destruct b; [|discriminate]. inversion Ew; subst d'.
-      destruct (Hd eq_refl) as (_ & D2 & _). now rewrite D2.
+      destruct (Hd eq_refl) as (_ & D2 & _). rewrite D2. apply (emap_open _ _ (ostat_open _ _)).
 Qed.
 
 Definition absb (key : Z) (x : mptr) : bool := negb (snd x) && (Nat.eqb (fst x) null || (key <? key_of (fst x))).
@@ -489,7 +492,7 @@ Proof.
       * intros n0 h0 E. inversion E; subst n0 h0. repeat split; auto; [|right; eauto].
         cbn [hgt_of g']. unfold upd1. now rewrite Nat.eqb_refl.
     + intros Hw. apply (e_wl _ _ He). cbn [set_oh snd xwatch] in Hw. rewrite <- Hv in Hw. exact Hw.
-  - intros Hil. apply IL2_keep with (g := g); auto. rewrite Hv. reflexivity.
+  - intros Hil. apply IL2_keep with (g := g); auto; rewrite Hv; reflexivity.
 Qed.
 
 (** ** stores and CASes *)
@@ -568,6 +571,8 @@ Proof.
   - intros Hi. apply IL2_keep with (g := g); auto.
     + rewrite Hv. unfold stof. rewrite E5, E4. destruct (xwatch (snd lv)) as [d|] eqn:Ew; [|reflexivity].
       destruct O2 as (X1 & _). destruct (X1 d Ew) as [Hd _]. rewrite setnx_other; [reflexivity|]. intros E. inversion E; subst. congruence.
+    + now rewrite Hv, E4.
+    + now rewrite Hv, E4.
     + intros n Hn. destruct (Nat.eq_dec l 0) as [->|Nl]; [|now rewrite setnx_up]. rewrite setnx_other0; [reflexivity|congruence].
     + intros S HS. apply abs_cell; auto. intros _. left. intros E. apply Hnot. now right.
 Qed.
@@ -598,6 +603,8 @@ Proof.
       * intros Hw. apply (e_wl _ _ He). rewrite V2, <- Hv in Hw. exact Hw.
     + intros Hil'. apply IL2_keep with (g := g); auto.
       * rewrite Hv. unfold stof. rewrite V1, V2. destruct (xwatch (snd lv)); [|reflexivity]. now rewrite setnx_up.
+      * now rewrite Hv, V1.
+      * now rewrite Hv, V1.
       * intros n _. now rewrite setnx_up.
       * intros S HS. apply abs_cell; [exact HS|intros; congruence].
   - split; [|apply H; [apply (s_I _ _ Hs)|discriminate]]. eapply keep_step; eauto. split; assumption.
@@ -633,6 +640,8 @@ Proof.
       * intros Hw. apply (e_wl _ _ He). cbn [addfzu snd setx xwatch] in Hw. rewrite V2, <- Hv in Hw. exact Hw.
     + intros Hil'. apply IL2_keep with (g := g); auto.
       * rewrite Hv. unfold stof. cbn [addfzu fst snd setx xwatch]. rewrite V1, V2. destruct (xwatch (snd lv)); [|reflexivity]. now rewrite setnx_up.
+      * rewrite Hv. cbn [addfzu fst]. now rewrite V1.
+      * rewrite Hv. cbn [addfzu fst]. now rewrite V1.
       * intros n _. now rewrite setnx_up.
       * intros S HS. apply abs_cell; [exact HS|intros; congruence].
   - set (c := nxt g p l).
